@@ -1070,7 +1070,7 @@ func specValidation(c *hx.Ctx) {
 
 func run(c *hx.Ctx) error {
 	res := c.Res
-	res.Rule = "encoders: every regenerated encode/decode function against the real one on the whole domain when it has at most 65536 points, otherwise boundary values (±2^k, ±2^k±1) and random operands; round trips on the real code exhaustively (Int16, Uint16, ValueIndex, RenderContext, SetVar index, one-byte index) or on boundary + random values (Uint24). sweeps: generated programs/templates whose count of one resource is n, for n just below, at and just above the limit of its table (plus random n, 2·limit+1); at the full table and one short of it the de-duplicated tables (constants of each kind, types, functions, natives, field paths, globals, closure variables, template constants) are swept again with entries used a second time (first, last, a random middle one, several), inside a function literal, and with further entries declared but never used: these must build and print the generator's output whenever the plain program of that size does; non-trivial = n within 2 of the limit; distinct by (sweep, n, variant); arity sweeps (counts and literal indexes that travel as one-byte immediates: variadic arguments, append operands, composite literal sizes and keyed indexes, multiple assignment, results, switch cases, concatenation operands, nesting depth) at 1, 2, 126…129, 255…257 and random sizes below 300"
+	res.Rule = "encoders: every regenerated encode/decode function against the real one on the whole domain when it has at most 65536 points, otherwise boundary values (±2^k, ±2^k±1) and random operands; round trips on the real code exhaustively (Int16, Uint16, ValueIndex, RenderContext, SetVar index, one-byte index) or on boundary + random values (Uint24). sweeps: generated programs/templates whose count of one resource is n, for n just below, at and just above the limit of its table (plus random n, 2·limit+1); at the full table and one short of it the de-duplicated tables (constants of each kind, types, functions, natives, field paths, globals, closure variables, template constants) are swept again with entries used a second time (first, last, a random middle one, several), inside a function literal, and with further entries declared but never used: these must build and print the generator's output whenever the plain program of that size does; non-trivial = n within 2 of the limit; distinct by (sweep, n, variant); arity sweeps (counts and literal indexes that travel as one-byte immediates: variadic arguments, append operands, composite literal sizes and keyed indexes, multiple assignment, results, switch cases, concatenation operands, nesting depth) at 1, 2, 126…129, 255…257 and random sizes below 300; placement sweeps (place.go): each resource consumed n times in each kind of function (main, declared, init, literals, package-variable initialisers, imported package, template top level/block/macro/imported/extending/rendered/using/default), bisection for the largest n that builds, every execution must be built-right or a limit error, non-trivial = within 3 of that n; disassembly of the built programs of the table sweeps at 2 … 255 entries"
 	specValidation(c)
 
 	if c.Replay != "" {
@@ -1080,6 +1080,16 @@ func run(c *hx.Ctx) error {
 			}
 			if json.Unmarshal(data, &rp) == nil {
 				f := strings.Fields(rp.Case)
+				if len(f) == 5 && f[1] == "disasm" {
+					n, _ := strconv.Atoi(f[4])
+					disasmSweeps(c, f[2], n)
+					return nil
+				}
+				if len(f) == 5 && f[1] == "place" {
+					n, _ := strconv.Atoi(f[4])
+					replayPlaced(c, f[2], f[3], n)
+					return nil
+				}
 				if (len(f) == 4 || len(f) == 5) && f[1] == "sweep" {
 					v := variant{}
 					if len(f) == 5 {
@@ -1137,6 +1147,11 @@ func run(c *hx.Ctx) error {
 		"Functions": int(lim["maxScriggoFunctionsCount"]), "NativeFunctions": int(lim["maxNativeFunctionsCount"]), "FieldIndexes": int(lim["maxFieldIndexesCount"]),
 		"Text": int(lim["maxTextsCount"]), "SelectCases": int(lim["maxSelectCasesCount"]), "Globals": int(lim["maxGlobalsCount"]), "ClosureVars": int(lim["maxClosureVarsCount"]),
 	}
+	if os.Getenv("C20_ONLY") == "place" { // debugging aid: only the placement sweeps
+		placedSweeps(c, limitOf)
+		disasmSweeps(c, "", 0)
+		return nil
+	}
 	for _, s := range sweeps() {
 		if s.heavy && c.Quick() {
 			continue
@@ -1170,6 +1185,8 @@ func run(c *hx.Ctx) error {
 			}
 		}
 	}
+	placedSweeps(c, limitOf)
+	disasmSweeps(c, "", 0)
 	for _, s := range arities() {
 		ns := aritySizes(c, c.R.Intn)
 		sort.Ints(ns)
